@@ -71,6 +71,17 @@ pub const FMT_MINIS: &[&str] = &[
     "let t = \"a string with spaces  and \\\"escapes\\\"\\n\" in let c = '\\n' in ret (t, c, 1.5e10, -3)",
     "let long_name_number_one = 1 in let long_name_number_two = 2 in let long_name_number_three = 3 in ret (long_name_number_one, long_name_number_two, long_name_number_three)",
     "x\n\n\n",
+    "ret (1e999, -1e999, 1e-999)",
+    "exists ((x)) . T",
+    "exists ((a, b)) . T",
+    "exists ((a = x) as D) . T",
+    "@[format(verbatim)] /- ] -/ x",
+    "@[format(verbatim)] -- see [1] here\nret x",
+    "pi (n : Nat) . (fn (A : VType) => Vec n A)",
+    "forall (X : VType) . (@[doc(\"boxed\")] Thk (Ret X))",
+    "sigma (x : A) . (fix f => f)",
+    "@[format(indent(9223372036854775807))] A -> B",
+    "@[format(width(9223372036854775807))] A -> B",
 ];
 
 #[derive(Clone, Debug)]
@@ -182,6 +193,23 @@ impl Fmt {
             add(format!("fmtmini{i}"), m.to_string());
         }
         let n_minis = bases.len();
+        // grammar pairs: every production (parenthesised) in every syntactic slot — the exhaustive part
+        // for parenthesis elision; undeviated, key configurations
+        let n_pairs_start = bases.len();
+        if mode != Mode::Text {
+            let mut k = 0;
+            for c in crate::c10::CTXS {
+                for f in crate::c10::FRAGS {
+                    let text = c.replace("HOLE", &format!("({f})"));
+                    if format_parses(&text) {
+                        let toks = reflex::code_tokens(&text);
+                        bases.push(Base { name: format!("pair{k}"), text, toks });
+                        k += 1;
+                    }
+                }
+            }
+        }
+        let n_pairs_end = bases.len();
         let limit = if tier == Tier::Thorough { 6000 } else { 1200 };
         for p in repo_sources() {
             if let Ok(t) = std::fs::read_to_string(&p) {
@@ -198,6 +226,9 @@ impl Fmt {
             let is_mini = bi < n_minis;
             // the undeviated source under every directive combination (minis), key configs otherwise
             cases.push((bi, Dev::None, is_mini));
+            if bi >= n_pairs_start && bi < n_pairs_end {
+                continue;
+            }
             let ntok = b.toks.len();
             let stride = if is_mini || tier == Tier::Thorough { 1 } else { (ntok / 25).max(1) };
             for k in (0..=ntok).step_by(stride) {
@@ -333,7 +364,7 @@ impl Check for Fmt {
     fn describe(&self, i: usize) -> String {
         let (bi, dev, all) = &self.cases[i];
         let b = &self.bases[*bi];
-        format!("source {} ({} bytes) with deviation {:?} under {} directive configurations; deviated text:\n{}", b.name, b.text.len(), dev, if *all { 336 } else { key_configs().len() }, b.apply(dev).unwrap_or_else(|| "<deviation does not apply>".into()))
+        format!("source {:?} [{}, {} bytes] with deviation {:?} under {} directive configurations; deviated text:\n{}", b.text.chars().take(48).collect::<String>(), b.name, b.text.len(), dev, if *all { 336 } else { key_configs().len() }, b.apply(dev).unwrap_or_else(|| "<deviation does not apply>".into()))
     }
     fn crash_is_violation(&self) -> bool {
         true
@@ -380,6 +411,29 @@ impl Check for Fmt {
             | Dev::Paren(_) => "a parenthesised atom".to_string(),
             | Dev::None => "no deviation".to_string(),
         };
+        // If the undeviated source already misbehaves at default options (panic, unparseable or
+        // structurally different output, lost comment, unstable second run), every deviation of it
+        // inherits the problem: key the fingerprint to the source instead of the deviation.
+        let base_bad = !matches!(dev, Dev::None) && {
+            match guarded(|| format_source(&base.text)) {
+                | Err(_) => true,
+                | Ok(Err(())) => false,
+                | Ok(Ok(o)) => {
+                    !format_parses(&o)
+                        || matches!((guarded(|| desugared(&base.text)), guarded(|| desugared(&o))), (Ok(Ok(a)), Ok(Ok(b))) if a != b)
+                        || matches!((guarded(|| desugared(&base.text)), guarded(|| desugared(&o))), (Ok(Ok(_)), Ok(Err(_))))
+                        || comments_of(&base.text) != comments_of(&o)
+                        || !matches!(guarded(|| format_source(&o)), Ok(Ok(again)) if again == o)
+                }
+            }
+        };
+        let (devkind, position) = if base_bad {
+            ("any layout of".to_string(), format!("the source {:?}", base.text.chars().take(48).collect::<String>()))
+        } else if matches!(dev, Dev::None) {
+            ("the undeviated".to_string(), format!("source {:?}", base.text.chars().take(48).collect::<String>()))
+        } else {
+            (devkind, position)
+        };
         let configs = if all { all_configs() } else { key_configs() };
         let mut r = CaseResult::ok("formatted").key(hash64(&format!("{}{:?}", base.name, dev)));
         let mut changed = false;
@@ -415,12 +469,17 @@ impl Check for Fmt {
                     }
                     match (guarded(|| desugared(&input)), guarded(|| desugared(&out))) {
                         | (Ok(Ok(a)), Ok(Ok(b))) => {
-                            if a != b {
+                            // merged binder telescopes are an allowed rewrite: `exists A . (exists B . T)` and
+                            // `exists A . exists B . T` desugar to the same nest except for the kind ascription
+                            // the desugarer wraps around each separately written `exists`
+                            let strip = |t: &str| t.replace(" : VType", "").replace(['(', ')'], "");
+                            let telescope_merge = a != b && input.contains(". (exists") && strip(&a) == strip(&b);
+                            if a != b && !telescope_merge {
                                 r = r.violation(format!("formatting changes the desugared structure of the program with {} {}", devkind, position), format!("input:\n{}\noutput:\n{}\ndesugared input:  {}\ndesugared output: {}", input, out, a, b));
                             }
                         }
                         | (Ok(Ok(_)), Ok(Err(e))) => {
-                            r = r.violation("formatter output no longer desugars", format!("{e}\ninput:\n{}\noutput:\n{}", input, out));
+                            r = r.violation(format!("formatter output no longer desugars with {} {}", devkind, position), format!("{e}\ninput:\n{}\noutput:\n{}", input, out));
                         }
                         | _ => {
                             r = r.count("input_does_not_desugar", 1);
@@ -433,7 +492,7 @@ impl Check for Fmt {
                         let what = if a.len() > b.len() { "a comment is lost" } else if a.len() < b.len() { "a comment is duplicated" } else { "comment text or order changes" };
                         r = r.violation(format!("formatting does not preserve comments: {what} with {} {}", devkind, position), format!("input comments {:?}\noutput comments {:?}\ninput:\n{}\noutput:\n{}", a, b, input, out));
                     } else if let Some(loss) = token_loss(&input, &out) {
-                        r = r.violation("formatting does not account for every code token", format!("{loss}\ninput:\n{}\noutput:\n{}", input, out));
+                        r = r.violation(format!("formatting does not account for every code token with {} {}", devkind, position), format!("{loss}\ninput:\n{}\noutput:\n{}", input, out));
                     }
                 }
                 | Mode::Idempotence => {
